@@ -81,6 +81,7 @@ func (back *BfeBackend) Avail() bool {
 func (back *BfeBackend) SetAvail(avail bool) {
 	back.Lock()
 	back.setAvail(avail)
+	verifTraceLocked("set_avail", back, 0)
 	back.Unlock()
 }
 
@@ -116,24 +117,28 @@ func (back *BfeBackend) ConnNum() int {
 func (back *BfeBackend) IncConnNum() {
 	back.Lock()
 	back.connNum++
+	verifTraceLocked("inc_conn", back, back.connNum)
 	back.Unlock()
 }
 
 func (back *BfeBackend) DecConnNum() {
 	back.Lock()
 	back.connNum--
+	verifTraceLocked("dec_conn", back, back.connNum)
 	back.Unlock()
 }
 
 func (back *BfeBackend) AddFailNum() {
 	back.Lock()
 	back.failNum++
+	verifTraceLocked("add_fail", back, 0)
 	back.Unlock()
 }
 
 func (back *BfeBackend) ResetFailNum() {
 	back.Lock()
 	back.failNum = 0
+	verifTraceLocked("reset_fail", back, 0)
 	back.Unlock()
 }
 
@@ -148,12 +153,14 @@ func (back *BfeBackend) FailNum() int {
 func (back *BfeBackend) AddSuccNum() {
 	back.Lock()
 	back.succNum++
+	verifTraceLocked("add_succ", back, 0)
 	back.Unlock()
 }
 
 func (back *BfeBackend) ResetSuccNum() {
 	back.Lock()
 	back.succNum = 0
+	verifTraceLocked("reset_succ", back, 0)
 	back.Unlock()
 }
 
@@ -172,9 +179,11 @@ func (back *BfeBackend) CheckAvail(succThreshold int) bool {
 
 	if back.succNum >= succThreshold {
 		back.succNum = 0
+		verifTraceLocked("check_avail", back, 1)
 		return true
 	}
 
+	verifTraceLocked("check_avail", back, 0)
 	return false
 }
 
@@ -189,10 +198,12 @@ func (back *BfeBackend) UpdateStatus(failThreshold int) bool {
 	if back.failNum >= failThreshold {
 		back.setAvail(false)
 		if prevStatus {
+			verifTraceLocked("update_status", back, 1)
 			return true
 		}
 	}
 
+	verifTraceLocked("update_status", back, 0)
 	return false
 }
 
@@ -202,6 +213,7 @@ func (back *BfeBackend) Release() {
 
 func (back *BfeBackend) Close() {
 	close(back.closeChan)
+	verifTrace("close", back, 0)
 }
 
 func (back *BfeBackend) CloseChan() <-chan bool {
